@@ -20,7 +20,8 @@ OPT = "std::option::Option"
 RES = "std::result::Result"
 VARIANTS = {OPT: {"0": "None", "1": "Some"}, RES: {"0": "Ok", "1": "Err"},
             "std::ops::ControlFlow": {"0": "Continue", "1": "Break"}}
-VI = {(OPT, "None"): 0, (OPT, "Some"): 1, (RES, "Ok"): 0, (RES, "Err"): 1}
+CF = "std::ops::ControlFlow"
+VI = {(OPT, "None"): 0, (OPT, "Some"): 1, (RES, "Ok"): 0, (RES, "Err"): 1, (CF, "Continue"): 0, (CF, "Break"): 1}
 
 
 class Builder:
@@ -162,6 +163,9 @@ def _adapter_site(raw, op, depth=0):
 
 
 class Desugarer:
+    closures_only = False
+    expand_try = False
+
     def __init__(self, P, key, policy):
         self.P = P
         self.key = key
@@ -264,6 +268,15 @@ class Desugarer:
         def ret_block(rv):
             return B.block([B.assign(D, rv)], B.goto(T))
 
+        def eager(op):
+            """rvalue for `D = <eagerly evaluated argument>`: when the argument is a temporary built by one pure
+            statement (Ok(x), Some(x), a constant, a copy), that statement is repeated at the point of use"""
+            if op.get("k") in ("copy", "move") and not op["place"]["p"]:
+                d = _single_def(raw, op["place"]["l"])
+                if d and d[0] == "assign" and d[1]["k"] in ("aggregate", "use") and not raw["locals"][op["place"]["l"]].get("user"):
+                    return copy.deepcopy(d[1])
+            return B.use(op)
+
         def call_then(fn, a, mk_rv):
             """r = fn(a..); D = mk_rv(r); goto T"""
             r = B.local()
@@ -276,6 +289,8 @@ class Desugarer:
 
         short = name.rsplit("::", 1)[-1]
         owner = name.rsplit("::", 1)[0]
+        if self.closures_only and short in ("unwrap_or", "ok_or", "or", "ok", "err", "transpose", "then_some"):
+            return False         # value-only combinators stay calls in the 'closures' view
         if owner == OPT:
             adt = OPT
             if short == "map" and fnarg(1):
@@ -292,7 +307,7 @@ class Desugarer:
                                      "None": lambda x: call_into(fn, [])})
             if short == "unwrap_or" and len(args) == 2:
                 return two_way(adt, {"Some": lambda x: ret_block(B.use(pay(x, OPT, "Some"))),
-                                     "None": lambda x: ret_block(B.use(args[1]))})
+                                     "None": lambda x: ret_block(eager(args[1]))})
             if short == "ok_or" and len(args) == 2:
                 return two_way(adt, {"Some": lambda x: ret_block(B.agg(RES, "Ok", [pay(x, OPT, "Some")])),
                                      "None": lambda x: ret_block(B.agg(RES, "Err", [args[1]]))})
@@ -306,11 +321,11 @@ class Desugarer:
                                      "None": lambda x: call_into(fn, [])})
             if short == "or" and len(args) == 2:
                 return two_way(adt, {"Some": lambda x: ret_block(B.use(B.mv(x))),
-                                     "None": lambda x: ret_block(B.use(args[1]))})
+                                     "None": lambda x: ret_block(eager(args[1]))})
             if short == "map_or" and fnarg(2):
                 fn = fnarg(2)
                 return two_way(adt, {"Some": lambda x: call_into(fn, [pay(x, OPT, "Some")]),
-                                     "None": lambda x: ret_block(B.use(args[1]))})
+                                     "None": lambda x: ret_block(eager(args[1]))})
             if short == "map_or_else" and fnarg(1) and fnarg(2):
                 fd, fn = fnarg(1), fnarg(2)
                 return two_way(adt, {"Some": lambda x: call_into(fn, [pay(x, OPT, "Some")]),
@@ -357,7 +372,7 @@ class Desugarer:
                                      "Err": lambda x: call_into(fn, [pay(x, RES, "Err")])})
             if short == "unwrap_or" and len(args) == 2:
                 return two_way(adt, {"Ok": lambda x: ret_block(B.use(pay(x, RES, "Ok"))),
-                                     "Err": lambda x: ret_block(B.use(args[1]))})
+                                     "Err": lambda x: ret_block(eager(args[1]))})
             if short == "ok" and len(args) == 1:
                 return two_way(adt, {"Ok": lambda x: ret_block(B.agg(OPT, "Some", [pay(x, RES, "Ok")])),
                                      "Err": lambda x: ret_block(B.agg(OPT, "None", []))})
@@ -394,6 +409,34 @@ class Desugarer:
             some = ret_block(B.agg(OPT, "Some", [args[1]]))
             none = ret_block(B.agg(OPT, "None", []))
             return finish([], B.switch_bool(args[0], some, none))
+        if name == "std::ops::Try::branch" and len(args) == 1 and self.expand_try:
+            who = str(f.get("resolved") or "") + " " + str(f.get("written") or "")
+            if "<std::result::Result<" in who or "<core::result::Result<" in who:
+                # Ok(v) => Continue(v), Err(e) => Break(Err(e))
+                def err_arm(x):
+                    tmp = B.local()
+                    return B.block([B.assign(tmp, B.agg(RES, "Err", [pay(x, RES, "Err")])),
+                                    B.assign(D, B.agg(CF, "Break", [B.mv(tmp)]))], B.goto(T))
+                return two_way(RES, {"Ok": lambda x: ret_block(B.agg(CF, "Continue", [pay(x, RES, "Ok")])), "Err": err_arm})
+            if "<std::option::Option<" in who or "<core::option::Option<" in who:
+                def none_arm(x):
+                    tmp = B.local()
+                    return B.block([B.assign(tmp, B.agg(OPT, "None", [])),
+                                    B.assign(D, B.agg(CF, "Break", [B.mv(tmp)]))], B.goto(T))
+                return two_way(OPT, {"Some": lambda x: ret_block(B.agg(CF, "Continue", [pay(x, OPT, "Some")])), "None": none_arm})
+        if name == "std::ops::FromResidual::from_residual" and len(args) == 1 and self.expand_try:
+            who = str(f.get("resolved") or "") + " " + str(f.get("written") or "")
+            if who.lstrip().startswith(("<std::result::Result<", "<core::result::Result<")) and "Infallible" in who:
+                # Err(e) => Err(From::from(e))
+                x, st = recv()
+                r = B.local()
+                after = B.block([B.assign(D, B.agg(RES, "Err", [B.mv(r)]))], B.goto(T))
+                ff = {"def": "std::convert::From::from", "written": "std::convert::From::from", "resolved": None,
+                      "resolved_args": None, "ikind": "Item", "local": False}
+                return finish([st], {"k": "call", "f": ff, "args": [pay(x, RES, "Err")], "dest": {"l": r, "p": []},
+                                     "target": after, "unwind": None, "span": B.span})
+            if who.lstrip().startswith(("<std::option::Option<", "<core::option::Option<")):
+                return finish([B.assign(D, B.agg(OPT, "None", []))], B.goto(T))
         if name == "std::iter::Iterator::next" and len(args) == 1:
             site = _adapter_site(raw, args[0])
             if site is not None and site != bi:
@@ -555,15 +598,18 @@ def no_functions(root_key, callee, depth):
     return False
 
 
-def desugared(P, key, policy=None, _cache={}):
+def desugared(P, key, policy=None, closures_only=False, expand_try=False, _cache={}):
     policy = policy or no_functions
-    ck = (id(P), key, getattr(policy, "__name__", str(id(policy))))
+    ck = (id(P), key, getattr(policy, "__name__", str(id(policy))), closures_only, expand_try)
     if ck not in _cache:
-        _cache[ck] = Desugarer(P, key, policy).run()
+        d = Desugarer(P, key, policy)
+        d.closures_only = closures_only
+        d.expand_try = expand_try
+        _cache[ck] = d.run()
     return _cache[ck]
 
 
-def desugar_program(P, policy=None):
+def desugar_program(P, policy=None, closures_only=False, expand_try=False):
     """replace every body by its desugared view (closure bodies that were inlined everywhere stay available as bodies)"""
     views = {}
     for k in list(P.bodies):
@@ -571,7 +617,7 @@ def desugar_program(P, policy=None):
         if b.derived or b.exp:
             continue
         try:
-            v = desugared(P, k, policy)
+            v = desugared(P, k, policy, closures_only, expand_try)
         except Exception:       # a malformed expansion must never hide the original body
             continue
         if getattr(v, "desugared", None) or getattr(v, "inlined_callees", None):
